@@ -142,7 +142,11 @@ func WorkerMain(specJSON string) {
 		}
 		fmt.Fprintf(w, "B %d\n", i)
 		w.Flush()
-		r := src.Run(i)
+		// run the case in its own goroutine: a panic of the code under test
+		// must kill the process at once (no recovery by the testing package).
+		ch := make(chan Result, 1)
+		go func() { ch <- src.Run(i) }()
+		r := <-ch
 		b, _ := json.Marshal(r)
 		fmt.Fprintf(w, "R %d %s\n", i, b)
 		w.Flush()
@@ -289,11 +293,15 @@ func runWorker(bin string, spec workerSpec, a *agg, deadline time.Time, onN func
 	sc := bufio.NewScanner(pr)
 	sc.Buffer(make([]byte, 1<<20), 64<<20)
 	killed := false
+	hung := false
 	var timer *time.Timer
 	if !deadline.IsZero() {
 		timer = time.AfterFunc(time.Until(deadline), func() { killed = true; cmd.Process.Kill() })
 	}
+	wd := time.AfterFunc(caseTimeout(), func() { hung = true; cmd.Process.Kill() })
+	defer wd.Stop()
 	for sc.Scan() {
+		wd.Reset(caseTimeout())
 		line := sc.Text()
 		switch {
 		case strings.HasPrefix(line, "N "):
@@ -324,6 +332,9 @@ func runWorker(bin string, spec workerSpec, a *agg, deadline time.Time, onN func
 	}
 	if killed {
 		return -1, false, rb.String(), fmt.Errorf("deadline")
+	}
+	if hung && !done {
+		return inflight, false, rb.String(), fmt.Errorf("hang")
 	}
 	if done {
 		return -1, true, rb.String(), nil
@@ -429,6 +440,15 @@ func budget(tier string) time.Duration {
 		return 40 * time.Minute
 	}
 	return 8 * time.Minute
+}
+
+func caseTimeout() time.Duration {
+	if v := os.Getenv("VERIF_CASE_TIMEOUT_S"); v != "" {
+		if n, err := strconv.Atoi(v); err == nil {
+			return time.Duration(n) * time.Second
+		}
+	}
+	return 180 * time.Second
 }
 
 // Check runs a property check end to end and returns the process exit code.
@@ -712,6 +732,14 @@ func runShard(bin string, spec workerSpec, a *agg, deadline time.Time, onN func(
 			a.deadlineHit = true
 			a.mu.Unlock()
 			return
+		}
+		if err != nil && err.Error() == "hang" && crashedAt >= 0 {
+			a.add(spec.Part, crashedAt, Result{Case: fmt.Sprintf("%s#%d", spec.Part, crashedAt), Outcome: "hang", Inconcl: fmt.Sprintf("no progress for %v; worker killed (safety net, not an oracle)", caseTimeout())})
+			if spec.Only >= 0 {
+				return
+			}
+			spec.From = crashedAt + 1
+			continue
 		}
 		if crashedAt < 0 {
 			hmu.Lock()
